@@ -187,6 +187,37 @@ class Tally:
             i = len(texts) // 2
             self.samples.append(dict(kind=kind, case=pc[i], impl=go[i], spec=sp[i]))
 
+    def run_bytes(self, kind, texts):
+        """texts given as bytes (invalid UTF-8): yang.Parse keeps the raw bytes of unquoted and single-quoted text where the
+        rune-level model and the reference reader have U+FFFD, so the hex fields are compared after Go-style re-decoding"""
+        res = self.res
+        pc = ["parse " + b.hex() for b in texts]
+        go, ml, sp = lib.run_go(pc), lib.run_ml(pc), lib.run_ml(["specparse " + b.hex() for b in texts])
+        self.n += len(texts)
+        k = self.kinds.setdefault(kind, dict(cases=0, accept=0, reject=0, ambiguous=0))
+        k["cases"] += len(texts)
+        for b, c, g, m, s in zip(texts, pc, go, ml, sp):
+            g2, m2, s2 = c16.canon_runes(g), c16.canon_runes(m), c16.canon_runes(s)
+            if g2 != m2:
+                self.corr_mism += 1
+                if self.corr_mism <= 3:
+                    res.violation("yang.Parse and the model disagree on bytes %r: impl=%s model=%s" % (b[:80], g[:300], m[:300]),
+                                  dict(kind="correspondence", case=c, impl=g, model=m))
+            v = s.split(" ", 1)[0]
+            if v in self.verdicts:
+                self.verdicts[v] += 1
+                k[v] += 1
+            self.impl["ok" if g.startswith("ok") else "err"] += 1
+            bad = (v == "accept" and POS.sub(";", g2) != "ok " + s2[len("accept "):]) or (v == "reject" and not g.startswith("err")) \
+                or v not in self.verdicts
+            if bad:
+                self.oracle_mism += 1
+                if self.oracle_mism <= 3:
+                    res.violation("RFC reading of bytes %r is %s but yang.Parse gives %s" % (b[:80], s[:300], g[:300]),
+                                  dict(kind="oracle", case=c, impl=g, spec=s))
+            elif v != "ambiguous":
+                self.nontrivial += 1
+
     def run_chunked(self, kind, it):
         buf = []
         for t in it:
@@ -226,6 +257,7 @@ def run(res, tier, seed, proof):
     # VT, FF, NEL, NBSP, U+1680, U+2000..200A, U+2028/9, U+202F, U+205F, U+3000 (unicode.IsSpace) and neighbours (U+001C..1F, U+200B,
     # U+FEFF, ...) are token characters: in unquoted tokens, between tokens, at the end, in strings and comments
     T.run_chunked("unicode-space", c16.unicode_space_texts())
+    T.run_bytes("invalid-utf8", c16.invalid_utf8_texts())
     T.run_chunked("unicode-space-exhaustive", c16.unicode_space_exhaustive(4 if quick else 5))
     T.run_chunked("multiline-grid", multiline_grid(24))
     T.run_chunked("grammar-directed", grammar_cases(rnd, 3000 if quick else 60000))
